@@ -848,7 +848,7 @@ static void ChildInvocation(const JV& step) {
     printer.reset(new StatusPrinter(pconfig));
     status.real = printer.get();
     status.cap = &cap;
-    Emit("{\"e\":\"Printer\",\"mode\":" + JEsc(cap.mode) + ",\"verbose\":" + (step["verbose"].boolean() ? "true" : "false") + ",\"fmt\":" + JEsc(fmt) + "}");
+    Emit("{\"e\":\"Printer\",\"mode\":" + JEsc(cap.mode) + ",\"verbose\":" + (step["verbose"].boolean() ? "true" : "false") + ",\"fmt\":" + JEsc(fmt) + ",\"dry\":" + (dry ? "true" : "false") + "}");
   }
   int code = 0;
   string msg;
